@@ -215,10 +215,10 @@ def full_streams(tier, rng, orc, proj):
     project = _named("full:" + proj, _proj_full_view if proj == "view" else _proj_full_wake)
     nontriv = lambda c, o: "+P" in o or "+R" in o
     return [Stream("full-stack-exhaustive", "full", gens.full_exhaustive(2 if q else 3), nontriv, True,
-                   "after `append[1,2,3,4] ; attach ; drain`: every sequence of <= %d events over 15 (vector calls incl. a transaction and the drop, limit calls incl. a silent update_if and the drop of the observable, single polls), then drain, two more updates, drain; Head and Skip x Observable / SharedObservable x capacity 1 (lag, Reset) and 16" % (2 if q else 3),
+                   "after `append[1,2,3,4] ; attach ; drain`: every sequence of <= %d events over 15 (vector calls incl. a transaction and the drop, limit calls incl. a silent update_if and the drop of the observable, single polls), then drain, two more updates, drain; Head and Skip x Observable / SharedObservable x capacity 1 (lag, Reset) and 16 x plain and batched subscriber stream (FullStack.fstep / FullStackB.fstep_b)" % (2 if q else 3),
                    full_hist, oracles=orc, project=project),
             Stream("full-stack-random", "full", gens.full_random(rng, n), nontriv, False,
-                   "%d seeded random histories of up to 40 events on a real ObservableVector (capacity 1..16: a third of them lag), a real Observable<usize> / SharedObservable<usize> as limit / count (set, set_if_not_eq, set_if_hash_not_eq, update, update_if; drop), the adapter attached after 0-3 events, single polls and drains; compared with the extracted FullStack.fstep line by line" % n,
+                   "%d seeded random histories of up to 40 events on a real ObservableVector (capacity 1..16: a third of them lag), a real Observable<usize> / SharedObservable<usize> as limit / count (set, set_if_not_eq, set_if_hash_not_eq, update, update_if; drop), the adapter attached after 0-3 events on the plain or the batched subscriber stream, single polls and drains; compared with the extracted FullStack.fstep / FullStackB.fstep_b line by line (an empty batch counts as inapplicable)" % n,
                    full_hist, oracles=orc, project=project)]
 
 
@@ -327,7 +327,7 @@ def c13_streams(tier, rng):
                "%d seeded random histories on a real ObservableVector (capacity 1..16, so lag occurs) with a plain and a batched subscriber carrying the same stack of 1-2 adapters (head/tail/skip static, with initial value, dynamic; filter; filter_map; sort first): mutators, multi-operation transactions (commit, rollback, drop), limit changes, drains; after every batch the batched view must be the stack's view of a state the vector had between top-level operations, at Pending both views equal the stack's view of the contents, no empty batch, fixed-parameter stacks deliver the same diffs on both flavours unless one lagged" % (6000 if q else 200000),
                e2e_hist, oracles={"e2eview", "e2estate", "e2eapp", "e2enopanic", "e2einit", "nonemptybatch", "samediffs"},
                project=proj_none),
-    ]
+    ] + full_streams(tier, rng, {"fullview", "fullapp", "fullnopanic"}, "view")
 
 
 _POLL_ENTRY = _re.compile(r"^(R:\S*|P|N)(\+(R:\S*|P|N))*$")
@@ -655,6 +655,10 @@ def c16_streams(tier, rng):
                aobs_hist, oracles=aorc),
         Stream("guarded-random", "aobs", gens.aobs_random(rng, na), aobs_nontriv, False,
                "%d seeded random guarded histories of 8..30 calls, 1-3 subscribers" % na, aobs_hist, oracles=aorc),
+        Stream("async-threads", "race", ["kind=%s rounds=%d" % (k, 3000 if q else 100000) for k in ("apollset", "asetifeq", "anextnowset") for _ in range(4)],
+               lambda c, o: True, False,
+               "the async flavour with the tokio RwLock contended by a real second thread, 3 x 4 x %d free-running rounds (each future driven by a park / unpark block_on): a Stream poll racing set().await (a Pending answer is woken, the value is then delivered once, then Pending), two set_if_not_eq().await with equal values (exactly one stores), next_now().await racing set().await (what it hands out and what it marks observed belong together)" % (3000 if q else 100000),
+               lambda c, o: c.split()[0], oracles={"racewake", "racefinal", "raceorder"}),
     ]
 
 
